@@ -145,6 +145,15 @@ class FindInPaths(FindByGlob):
                 if not sid:
                     debug(f"Path did not generate sid: {path}")
                     continue
+                # The glob can be fooled by the separator of the file name ("*_rig_*" matches "layout_x_rig_WORK"):
+                # the found Sid must carry the values that the search fixes.
+                if any(
+                    value != sid.get(key)
+                    for key, value in search.fields.items()
+                    if not any(symbol in value for symbol in conf.search_symbols)
+                ):
+                    debug(f"Found Sid does not have the searched values: {sid.uri} -- Search: {search.uri}")
+                    continue
 
                 found_paths.add(path)
                 if as_sid:
